@@ -549,6 +549,17 @@ def rule_short(ctx):
     ctx.require(n >= 20, 'C01.short', f'only {n} shortcut returns extracted')
 
 
+def rule_mix(ctx):
+    ctx.rule('C01.opt', 'Mix reduces its clumps with Sum4, Sum3 and the element-wise list_sum only: a bare `+` between rows concatenates plain '
+                        'Python lists (rows need not be channel lists), the Out then carries the rows side by side instead of their sum')
+    f = ctx.repo.func('sc3.synth.ugens.mix:Mix.new')
+    adds = [norm(b)[:50] for b in walk_local(f.node) if isinstance(b, ast.BinOp) and isinstance(b.op, ast.Add)
+            and any(isinstance(x, ast.Subscript) for x in (b.left, b.right))]
+    sums = [norm(c.func) for c in U.calls(f.node) if norm(c.func).endswith('list_sum')]
+    ctx.ob('C01.opt', f'{f.fq}:element-wise-sum', not adds and len(sums) >= 2,
+           f'rows added with a bare + ({adds}); list_sum calls: {len(sums)} (the leftover clump and the last level are list_sum)', f.node, f.module)
+
+
 def rule_transfer(ctx):
     ctx.rule('C01.opt', 'a rewrite hands the whole reader set of the replaced unit (`x._descendants = self._descendants`) only to a unit it has '
                         'just made: an existing unit already has readers of its own, which the assignment would forget - later passes then '
@@ -1033,11 +1044,15 @@ def run(ctx):
     rule_short(ctx)
     rule_opt(ctx)
     rule_transfer(ctx)
+    rule_mix(ctx)
     rule_dce(ctx)
     ctx.assume('operator.X.__name__ == X and the scbuiltin decorators keep the kernel __name__ (checked in C15.wrap)')
 
 
 MUTANTS = [
+    dict(rule='C01.opt', name='Mix adds the rows of a leftover clump of two with a bare + (seed C01-m)', file='sc3/synth/ugens/mix.py',
+         old="            else:\n                mixed_lst.append(utl.list_sum(item))\n",
+         new="            elif length == 2:\n                mixed_lst.append(item[0] + item[1])\n            else:\n                mixed_lst.append(item[0])\n"),
     dict(rule='C01.opt', name='double negation removed, the operand inherits the reader set and forgets its own readers (seed C01-i)', file='sc3/synth/ugen.py',
          old="    def _optimize_graph(self):  # override\n        self._perform_dead_code_elimination()\n\n\nclass BinaryOpUGen(BasicOpUGen):",
          new="    def _optimize_graph(self):  # override\n        if self._perform_dead_code_elimination():\n            return\n        a = self.inputs[0]\n        if self.operator == 'neg' and isinstance(a, UnaryOpUGen) and a.operator == 'neg' and len(a._descendants) == 1:\n            replacement = a.inputs[0]\n            for ugen in self._descendants:\n                ugen._inputs = tuple(replacement if i is self else i for i in ugen.inputs)\n            self._synthdef._remove_ugen(a)\n            self._synthdef._remove_ugen(self)\n            if isinstance(replacement, OutputProxy):\n                replacement = replacement.source_ugen\n            replacement._descendants = self._descendants\n\n\nclass BinaryOpUGen(BasicOpUGen):"),
